@@ -99,6 +99,12 @@ def rule_adj(chk):
         chk.ob("C14.adj/macro-paren-untrimmed", ok, "a function-like macro needs '(' directly after its name (space or comment in between: object-like); leading layout is ignored" if ok else
                "Macro::parse: function-like? `F(x)` %s, `F (x)` %s, `F/**/(x)` %s, `  F(x)` %s - must be True, False, False, True: layout between the macro name and '(' is the one place where it is significant"
                % tuple(tab[l][0] for l in lines), where(mp))
+        lay = ("F(a,b) a##b", "F(a , b) b a", "F( a/**/,/**/b ) b a", "F(a\\n,b) b a", "F( x ) x", "F( ) 1")
+        got = {l: tab.get(l) for l in lay}
+        okl = all(isinstance(v, tuple) and v and v[0] is True for v in got.values()) and got["F(a , b) b a"] == got["F( a/**/,/**/b ) b a"] == got["F(a\\n,b) b a"]
+        chk.ob("C14.adj/macro-parameter-layout", okl, "spaces, comments and line splices inside a macro's parameter list do not change the definition" if okl else
+               "Macro::parse: layout inside the parameter list changes the definition or makes it invalid: %s" % {k: (v if v == "Err" else v[:2] if isinstance(v, tuple) else v) for k, v in got.items()},
+               where(mp))
     elif chk.anchor("C14.anchor/Macro::parse", mp, "Macro::parse"):
         # after the name is split off, the '(' test is on `rest` of split_first, with no trim call in between
         ok = False
